@@ -887,7 +887,7 @@ impl BigDecimal {
             term *= self;
             factorial *= n;
             // ∑ term=x^n/n!
-            result += impl_division(term.int_val.clone(), &factorial, term.scale, 117 + precision);
+            result += impl_division(term.int_val.clone(), &factorial, term.scale, target_precision + 17 + precision);
 
             let trimmed_result = result.with_prec(target_precision + 5);
             if prev_result == trimmed_result {
